@@ -322,3 +322,15 @@ package stage
 //@ func (*Stage).CleanNow
 //@   on return assert same-thresholds-as-the-periodic-pass: called((*Stage).clean) && lastarg((*Stage).clean, 0) == s
 //@   modifies everything
+
+// ---------------------------------------------------------------- what the receiver reports as held (C07 C04)
+
+// Scan reports every companion that exists and can be read - complete or not (the sender needs the
+// complete, not yet delivered ones to keep the order chain) - under the path lock of its file
+//@ func (*Stage).Scan
+//@   track store partials
+//@   before call os.Stat assert looks-at-the-companion-itself: arg0 == path
+//@   before call readLocalCompanion assert reads-the-companion-found: arg0 == path && lastret(os.Stat, 1) == nil && shared(lock)
+//@   on callback return assert every-readable-companion-is-reported: called(readLocalCompanion) && lastret(readLocalCompanion, 1) == nil ==> stored(partials)
+//@   forbid call isCompanionComplete label every-readable-companion-is-reported
+//@   modifies everything
